@@ -36,8 +36,8 @@ MUTANTS = [{'expect': ['C13-R5'],
   'tests': 'KILLED'},
  {'expect': ['C01-R2'],
   'files': [('oneliner/pending_nodes.py',
-             'body_or_true = Tuple(elts=[body], ctx=Load())',
-             'body_or_true = body')],
+             'orelse_or_true = Tuple(elts=[orelse], ctx=Load())',
+             'orelse_or_true = orelse')],
   'id': 'm06',
   'prop': 'C01',
   'tests': 'SURVIVES'},
@@ -488,7 +488,18 @@ MUTANTS += [
     {"id": "r05", "prop": "C04", "expect": ["C04-R7"], "files": [(EU, "            field = yield PREC_FORMAT_EXPR_SLOT, v\n            contents.append(field)", "            field = yield PREC_FORMAT_EXPR_SLOT, v\n            if \"\\\\\" in field:\n                raise SyntaxError(\"Back slash is included in a f-string\")\n            contents.append(field)")]},
     {"id": "r06", "prop": "C15", "expect": ["C15-R2"], "files": [(EU, "    if qm in value:\n", "    if qm in value and sys.version_info < (3, 12):\n"), (EU, "import typing\n", "import sys\nimport typing\n")]},
 ]
+MUTANTS += [
+    {"id": "r07", "prop": "C04", "expect": ["C04-R8"], "files": [(EU, "            out.append(f\"\\\\x{ord(i):02x}\")", "            out.append(i)")]},
+    {"id": "r08", "prop": "C04", "expect": ["C04-R8"], "files": [(EU, "    for i in value.decode(\"latin-1\"):\n        if i == qm:\n            out.append(f\"\\\\{qm}\")\n        elif ord(i) > 127:", "    for i in value.decode(\"latin-1\"):\n        if ord(i) > 127:")]},
+    {"id": "r09", "prop": "C04", "expect": ["C04-R8", "C04-R4"], "files": [(EU, "        return f\"b{qm}{value}{qm}\"", "        return f\"b'{value}'\"")]},
+    {"id": "r10", "prop": "C07", "expect": ["C07-R6"], "files": [(PN, "                orelse_or_true = Tuple(elts=[orelse], ctx=Load())\n                not_test = UnaryOp(op=Not(), operand=test)\n                semi_if = BoolOp(op=And(), values=[not_test, orelse_or_true])\n                return [BoolOp(op=Or(), values=[semi_if, body])]", "                body_or_true = Tuple(elts=[body], ctx=Load())\n                semi_if = BoolOp(op=And(), values=[test, body_or_true])\n                return [BoolOp(op=Or(), values=[semi_if, orelse])]")]},
+    {"id": "r11", "prop": "C08", "expect": ["C08-R6"], "files": [(PN, "            converting.extend((yield node))\n\n", "            converting.extend((yield node))\n\n            if isinstance(node, (Break, Continue, Return)):\n                break\n\n")]},
+    {"id": "r12", "prop": "C14", "expect": ["C14-R1"], "files": [(PN, "                for attr in _alias.name.split(\".\")[1:]:\n                    value = Attribute(value=value, attr=attr, ctx=Load())", "                value = Attribute(value=value, attr=_alias.name.split(\".\")[-1], ctx=Load())")]},
+    {"id": "r13", "prop": "C14", "expect": ["C14-R1"], "files": [(PN, "            if _alias.asname is not None and \".\" in _alias.name:", "            if False:")]},
+]
 EQUIVALENTS += [
+    {"id": "e24", "props": ["C05", "C08", "C01", "C17", "C07"], "why": "dead statements are converted and their result dropped (validated, not emitted)",
+     "files": [(PN, "            converting.extend((yield node))\n\n", "            if dead:\n                yield node\n                continue\n            converting.extend((yield node))\n            if isinstance(node, (Break, Continue, Return)):\n                dead = True\n\n"), (PN, "        converting: list[expr] = []\n        stack = [converting]\n        for node in branch:", "        converting: list[expr] = []\n        stack = [converting]\n        dead = False\n        for node in branch:")]},
     {"id": "e23", "props": ["C04", "C15", "C02", "C03"], "why": "both refusal tests in one condition",
      "files": [(EU, "    if \"\\\\\" in value:\n", "    if \"\\\\\" in value or False:\n")]},
     {"id": "e22", "props": ["C04", "C15", "C02"], "why": "the same threshold spelled as >= 128",
